@@ -25,6 +25,9 @@ pub struct RawTableInner {
     pub ctrl: Vec<u8>,
     pub growth_left: usize,
     pub items: usize,
+    /// ghost view of the element storage: the identity of the element held by each bucket (used by unit
+    /// rehash; control-byte operations leave it alone)
+    pub elems: Ghost<Seq<int>>,
 }
 
 pub open spec fn spec_is_pow2(x: usize) -> bool {
@@ -173,6 +176,7 @@ impl RawTableInner {
             final(self).bucket_mask == old(self).bucket_mask,
             final(self).growth_left == old(self).growth_left,
             final(self).items == old(self).items,
+            final(self).elems == old(self).elems,
     {
         self.ctrl.set(i, t.0);
     }
@@ -194,6 +198,7 @@ impl RawTableInner {
             final(self).bucket_mask == old(self).bucket_mask,
             final(self).growth_left == old(self).growth_left,
             final(self).items == old(self).items,
+            final(self).elems == old(self).elems,
     {
         unimplemented!()
     }
@@ -208,6 +213,7 @@ impl RawTableInner {
             final(self).bucket_mask == old(self).bucket_mask,
             final(self).growth_left == old(self).growth_left,
             final(self).items == old(self).items,
+            final(self).elems == old(self).elems,
     {
         unimplemented!()
     }
@@ -315,4 +321,16 @@ pub open spec fn f2(&self, hs: Map<int, u64>) -> bool {
     forall|i: int| 0 <= i < self.nb() && #[trigger] self.ctrl@[i] < 0x80u8 ==>
         hs.dom().contains(i) && self.ctrl@[i] == spec_tag(hs[i]) && self.reach(i, hs[i])
 }
+    /// strong reachability: bucket i lies in probe window k of hash h and every earlier window is entirely FULL
+    pub open spec fn sreach_at(&self, i: int, h: u64, k: nat) -> bool {
+        let n = self.nb();
+        let start = h as usize as int;
+        &&& (n >= Group::WIDTH ==> (k as int) < n / (Group::WIDTH as int))
+        &&& (n < Group::WIDTH ==> k == 0)
+        &&& 0 <= (i - spec_pos(start, n, k)) % n < Group::WIDTH
+        &&& forall|j: nat, t: int| j < k && 0 <= t < Group::WIDTH ==> #[trigger] self.win(spec_pos(start, n, j), t) < 0x80u8
+    }
+    pub open spec fn sreach(&self, i: int, h: u64) -> bool {
+        exists|k: nat| #[trigger] self.sreach_at(i, h, k)
+    }
 }
